@@ -12,7 +12,7 @@ Extraction Language OCaml.
 Extraction "model.ml"
   step_fn init cfg_of_list run accepts first_reject
   holds_lock tx_of tx_balance_ok tx_stale_ok is_sel is_s4 is_done tx_ok
-  order_ok discipline_ok
+  order_ok discipline_ok raw_discipline
   run_receiver receiver_spec rx_trace
   contains run_result run_spec wrap_receiver wrap_transmitter wrap_run closed_text
   Nat.eqb Nat.add
